@@ -767,7 +767,8 @@ func RuleH3(c *Ctx) {
 	info := pk.TypesInfo
 	for i := 0; i < cat.NumMethods(); i++ {
 		m := cat.Method(i)
-		if !strings.HasPrefix(m.Name(), "Add") {
+		// the setters and their helpers (`addDescriptionToInteraction`)
+		if !strings.HasPrefix(m.Name(), "Add") && !strings.HasPrefix(m.Name(), "add") {
 			continue
 		}
 		fd := c.P.Decl(m)
